@@ -57,7 +57,9 @@ class LPDB:
         it.path_alias = {("consts", "NMONTHS"): Rat.atom(NSYM)}
         obj = Obj(self.cls, {}, "self")
         init = self.index.func(OPT, "Optimizer.__init__")
-        it.call_function(init, [Path(("consts",)), Path(("tc",))], {}, obj)
+        from .core import bind_named
+        a_, k_ = bind_named(init, [("consts_for_optimizer", Path(("consts",))), ("time_consts", Path(("tc",)))])
+        it.call_function(init, a_, k_, obj)
         obj.attrs["optimization_type"] = opt_type
         return obj
 
@@ -176,7 +178,7 @@ class LPDB:
                   ("maximize_constraints", ("maximize_constraints", "constraints", "objectives")),
                   ("nmonths", ("nmonths", "n_months", "n")))
 
-    def by_role(self, fn, roles):
+    def by_role(self, fn, roles, partial=False):
         """keyword arguments for `fn` from values known by role: a parameter takes the value whose role its name states (or, for the
         function role, the parameter the body calls); parameters of `fn` with no role here and a default are left to the default.  The
         order, number and spelling of the parameters are the callee's own business"""
@@ -184,12 +186,22 @@ class LPDB:
         params = [a.arg for a in fn.args.args][1:]
         n_default = len(fn.args.defaults)
         called = {c.func.id for c in walk_no_nested(fn) if isinstance(c, ast.Call) and isinstance(c.func, ast.Name)}
+        # what the body does with a parameter says what it is, whatever it is called: the LP is added to (`p += ...`) or asked for its
+        # objective; the variable table is subscripted with a family name
+        as_model = {n.target.id for n in walk_no_nested(fn) if isinstance(n, ast.AugAssign) and isinstance(n.target, ast.Name)} | {
+            n.value.id for n in walk_no_nested(fn) if isinstance(n, ast.Attribute) and n.attr == "objective" and isinstance(n.value, ast.Name)}
+        as_vars = {n.value.id for n in walk_no_nested(fn) if isinstance(n, ast.Subscript) and isinstance(n.value, ast.Name)
+                   and isinstance(n.slice, ast.Constant) and isinstance(n.slice.value, str)}
         out = {}
         for i, p_ in enumerate(params):
             low = p_.lower()
             role = None
             if p_ in called and "function" in roles:
                 role = "function"
+            elif "model" in roles and p_ in as_model and p_ not in as_vars and len(as_model & set(params)) == 1:
+                role = "model"
+            elif "variables" in roles and p_ in as_vars and p_ not in as_model and len(as_vars & set(params) - as_model) == 1:
+                role = "variables"
             else:
                 for r, words in self.ROLE_WORDS:
                     if r in roles and (low == r or low in words):
@@ -202,7 +214,7 @@ class LPDB:
                             role = r
                             break
             if role is None:
-                if i >= len(params) - n_default:
+                if i >= len(params) - n_default or partial:
                     continue
                 raise AnalysisError(f"{fn.name}: parameter {p_!r} has no role the builder's call gives it "
                                     f"(known: {sorted(roles)})")
@@ -258,6 +270,30 @@ def _with(t, key, val):
 from .rat import Interval, INF, rat_sign, in_span, solve_combination  # noqa: E402
 
 
+def lp_model_param(fn):
+    """the parameter of an Optimizer routine that is the LP: the one the body solves, adds constraints to (`p += ...`), copies or asks for
+    its objective - whatever it is called and wherever it stands in the signature; None unless exactly one parameter is used so"""
+    from .core import walk_no_nested
+    params = [a.arg for a in fn.args.args]
+    used = set()
+    for n in walk_no_nested(fn):
+        if isinstance(n, ast.AugAssign) and isinstance(n.target, ast.Name):
+            used.add(n.target.id)
+        if isinstance(n, ast.Attribute) and n.attr in ("solve", "copy", "objective") and isinstance(n.value, ast.Name):
+            used.add(n.value.id)
+    # a local that merely renames (or copies) a parameter and is then used as the LP makes that parameter the LP
+    for _ in range(3):
+        for n in walk_no_nested(fn):
+            if isinstance(n, ast.Assign) and len(n.targets) == 1 and isinstance(n.targets[0], ast.Name) and n.targets[0].id in used:
+                v = n.value
+                if isinstance(v, ast.Call) and isinstance(v.func, ast.Attribute) and v.func.attr == "copy" and not v.args:
+                    v = v.func.value
+                if isinstance(v, ast.Name):
+                    used.add(v.id)
+    hits = [p_ for p_ in params if p_ in used]
+    return hits[0] if len(hits) == 1 else None
+
+
 def _floor_args(db, index, helper):
     """arguments of a floor helper as its one call site in run_optimizations_on_constraints gives them: (model, variables) plus whatever
     else the call passes (e.g. a floor value computed by the caller), each evaluated from the caller's own definitions with `model`
@@ -276,12 +312,11 @@ def _floor_args(db, index, helper):
         env = {"model": model, "variables": vd, "self": obj}
         for p_ in [a.arg for a in caller.args.args][1:]:
             env.setdefault(p_, Path((p_,)))
-        args = [model, vd]
-        kwargs = {}
-        for p_ in params[2:]:
-            if p_ in bound:
+        kwargs = db.by_role(callee, dict(model=model, variables=vd), partial=True)
+        for p_ in params:
+            if p_ in bound and p_ not in kwargs:
                 kwargs[p_] = it.eval(inl.expr(bound[p_]), env)
-        return args, kwargs
+        return [], kwargs
 
     return argfn
 
